@@ -68,17 +68,63 @@ def huge(rng: random.Random) -> int:
     return rng.choice(HUGE) + rng.choice([0, 0, 1, -1, 3, 15, 16, 17, rng.randint(-1000, 1000)])
 
 
+# CRS pool: EPSG-coded ones AND definitions without an EPSG code — several of which pyproj "recognises" with less than
+# full confidence (datum-less UTM on GRS80 / WGS72 → MGA / WGS72 UTM codes, custom LAEA → 3035, custom Albers), an ESRI
+# WKT, an ESRI authority code, MODIS sinusoidal.  The file's CRS is compared with the REQUESTED definition by pyproj.
+CRS_POOL = [
+    "epsg:3857", "epsg:4326", "epsg:32755", "epsg:3577", "epsg:6933",
+    "+proj=utm +zone=55 +south +ellps=GRS80 +units=m +no_defs",
+    "+proj=utm +zone=33 +ellps=WGS72 +units=m +no_defs",
+    "+proj=laea +lat_0=52 +lon_0=10 +x_0=4321000 +y_0=3210000 +ellps=GRS80 +units=m +no_defs",
+    "+proj=sinu +lon_0=0 +x_0=0 +y_0=0 +R=6371007.181 +units=m +no_defs",
+    "+proj=aea +lat_1=-18 +lat_2=-36 +lat_0=0 +lon_0=132 +x_0=0 +y_0=0 +ellps=GRS80 +units=m +no_defs",
+    'PROJCS["WGS_1984_Web_Mercator_Auxiliary_Sphere",GEOGCS["GCS_WGS_1984",DATUM["D_WGS_1984",SPHEROID["WGS_1984",6378137.0,'
+    '298.257223563]],PRIMEM["Greenwich",0.0],UNIT["Degree",0.0174532925199433]],PROJECTION["Mercator_Auxiliary_Sphere"],'
+    'PARAMETER["False_Easting",0.0],PARAMETER["False_Northing",0.0],PARAMETER["Central_Meridian",0.0],'
+    'PARAMETER["Standard_Parallel_1",0.0],PARAMETER["Auxiliary_Sphere_Type",0.0],UNIT["Meter",1.0]]',
+    "ESRI:54008",
+]
+
+
+def crs_same(file_crs, spec: str):
+    """FULL comparison by pyproj (`CRS.__eq__`: same projection method, parameters, datum, ellipsoid, units), of what an
+    independent reader finds in the file against the requested definition — not EPSG codes, not odc-geo's CRS.__eq__.
+    (`is_exact_same` is stricter than GDAL's own GeoTIFF round trip: it fails on object names even for EPSG:4326.)"""
+    import pyproj  # pylint: disable=import-outside-toplevel
+
+    if file_crs is None:
+        return False, "file has no CRS"
+    return _crs_same_wkt(file_crs.to_wkt(), spec)
+
+
+_CRS_CMP = {}
+
+
+def _crs_same_wkt(wkt: str, spec: str):
+    import pyproj  # pylint: disable=import-outside-toplevel
+
+    if (wkt, spec) not in _CRS_CMP:
+        got, want = pyproj.CRS.from_wkt(wkt), pyproj.CRS(spec)
+        _CRS_CMP[wkt, spec] = (got == want, f"file: {got.name} / datum {got.datum.name}; requested: {want.name} / datum {want.datum.name}")
+    return _CRS_CMP[wkt, spec]
+
+
 def mk_gbox(rng: random.Random, h: int, w: int, GeoBox, allow_rot=True):
     from affine import Affine  # pylint: disable=import-outside-toplevel
+    from odc.geo.crs import CRS  # pylint: disable=import-outside-toplevel
 
-    crs = rng.choice(["epsg:3857", "epsg:4326", "epsg:32755", "epsg:3577", "epsg:6933"])
+    spec = rng.choice(CRS_POOL)
+    crs = CRS(spec)
+    if rng.random() < 0.5:
+        _ = crs.epsg  # some callers look at .epsg first (pyproj's fuzzy to_epsg) — must not change what is written
+    crs_is_4326 = spec == "epsg:4326"
     if rng.random() < 0.25:
         # float stream: realistic non-dyadic doubles, origins a hair off integers / half-integers.  The file is
         # compared with the GeoBox the writer sees (`xx.odc.geobox`), exactly.
         res = rng.choice([30.000000001, 1 / 3, 0.1, 9.999999999, 25 + 1e-10, 2.5e-4, 0.00025, 1 / 3600, 12.3456789])
         x0 = rng.randint(-1000, 1000) + rng.choice([0, 1e-6, -1e-9, 1e-10, -1e-11, 1e-13, 2.0**-40, 0.5 - 1e-9, 0.1])
         y0 = rng.randint(-80, 80) + rng.choice([0, 1e-6, -1e-9, 1e-10, 2.0**-40, 0.5 + 1e-13, 1 / 3])
-    elif crs == "epsg:4326":
+    elif crs_is_4326:
         res = rng.choice([0.25, 0.125, 1 / 1024, 0.00025])
         x0, y0 = rng.randint(-600, 500) * 0.25, rng.randint(-200, 300) * 0.25
     else:
@@ -89,7 +135,8 @@ def mk_gbox(rng: random.Random, h: int, w: int, GeoBox, allow_rot=True):
         A = Affine(res, 0, x0, 0, -res, y0) if r < 0.6 else Affine(res, 0, x0, 0, res, y0)
     else:
         A = Affine(res, res / 4, x0, res / 8, -res, y0)  # rotated / sheared
-    return GeoBox((h, w), A, crs)
+    gb = GeoBox((h, w), A, crs)
+    return gb, spec
 
 
 def mk_pix(prng, shp, dt):
@@ -182,6 +229,7 @@ def gen_cfg(rng: random.Random, big_ok: bool):
         windowed=rng.random() < 0.35, icomp=rng.choice([False, False, True, "zstd", "deflate", {"compress": "lzw"}]),
         resampling=rng.choice([None, None, "nearest", "average"]),
         content=rng.choice(CONTENTS), env=rng.randrange(len(ENVS)), seed=rng.randint(0, 10**6),
+        container=rng.choice(CONTAINERS),
     )
 
 
@@ -245,7 +293,8 @@ def build(cfg, GeoBox, wrap_xr):
     rng = random.Random(cfg["seed"])
     prng = np.random.default_rng(cfg["seed"])
     h, w, nb, layout = cfg["h"], cfg["w"], cfg["nb"], cfg["layout"]
-    gbox = mk_gbox(rng, h, w, GeoBox)
+    gbox, crs_spec = mk_gbox(rng, h, w, GeoBox)
+    cfg["_crs_spec"] = crs_spec
     want = mk_content(prng, cfg, expected_nodata(cfg))
     pix = want[0] if layout == "YX" else (want if layout == "SYX" else np.ascontiguousarray(want.transpose(1, 2, 0)))
     kw = {}
@@ -253,6 +302,27 @@ def build(cfg, GeoBox, wrap_xr):
         kw["time"] = [f"20{i:02d}-01-01" for i in range(nb)]
     xx = wrap_xr(pix, gbox, nodata=cfg["attrs_nodata"], **kw)
     return xx, pix, want, gbox
+
+
+CONTAINERS = ["list", "list", "tuple", "generator", "map", "iter", "zip"]
+
+
+def as_container(seq, kind: str, sized: bool = False):
+    """the same items in another container kind: every sequence-valued argument is tried as list, tuple, generator, map,
+    plain iterator, zip-derived iterator (sized=True: the parameter is documented as a list and gets len() taken — only
+    list / tuple there)"""
+    seq = list(seq)
+    if kind == "tuple":
+        return tuple(seq)
+    if sized or kind == "list":
+        return seq
+    if kind == "generator":
+        return (x for x in seq)
+    if kind == "map":
+        return map(lambda x: x, seq)
+    if kind == "iter":
+        return iter(seq)
+    return (a for a, _ in zip(seq, range(len(seq))))
 
 
 def band_first(arr, layout):
@@ -301,11 +371,11 @@ def one_case(cfg, workdir, tag):
             cur = nxt
     if entry != "write_cog_layers":
         if ovr_mode == "supplied":
-            kw["overviews"] = layers[1:]
+            kw["overviews"] = as_container(layers[1:], cfg.get("container", "list"))
         elif ovr_mode == "none":
-            kw["overview_levels"] = []
+            kw["overview_levels"] = as_container([], cfg.get("container", "list"), sized=True)
         elif ovr_mode == "levels":
-            kw["overview_levels"] = list(cfg["overview_levels"])
+            kw["overview_levels"] = as_container(list(cfg["overview_levels"]), cfg.get("container", "list"), sized=True)
         if ovr_mode in ("default", "levels") and cfg["resampling"] is not None:
             kw["overview_resampling"] = cfg["resampling"]
 
@@ -337,7 +407,7 @@ def one_case(cfg, workdir, tag):
                 elif entry == "acc_write_cog":
                     out = xx.odc.write_cog(":mem:" if is_mem else path, **kw)
                 else:
-                    out = RIO.write_cog_layers(layers, ":mem:" if is_mem else path, **kw)
+                    out = RIO.write_cog_layers(as_container(layers, cfg.get("container", "list")), ":mem:" if is_mem else path, **kw)
         except Exception as e:  # pylint: disable=broad-except
             err = e
     warned = any("multiple of 16" in str(x.message) for x in wlist)
@@ -389,8 +459,9 @@ def one_case(cfg, workdir, tag):
                               f"{int(bad.sum())} values differ, e.g. band {b_ + 1} ({y_},{x_}): wrote {want[b_, y_, x_]!r} read {got[b_, y_, x_]!r}"))
             if tuple(f.transform)[:6] != tuple(gbox.transform)[:6]:
                 fails.append(("transform-differs", f"{tuple(f.transform)[:6]} vs {tuple(gbox.transform)[:6]}"))
-            if f.crs is None or f.crs.to_epsg() != gbox.crs.epsg:
-                fails.append(("crs-differs", f"{f.crs} vs {gbox.crs}"))
+            crs_ok, crs_msg = crs_same(f.crs, cfg["_crs_spec"])
+            if not crs_ok:
+                fails.append(("crs-differs", crs_msg))
             if not same_nodata(f.nodata, nodata):
                 fails.append(("nodata-differs", f"file says {f.nodata}, requested {nodata} (attrs {cfg['attrs_nodata']}, keyword {cfg['kw_nodata']})"))
             if len(set(f.block_shapes)) != 1:
@@ -635,7 +706,7 @@ def run(R: Run):
                    lambda: list_s([f"{k}={v}" for k, v in RIO._norm_compression_opts(c).items()]), sig="ncomp")  # pylint: disable=protected-access
 
         # ---- the GDAL round trip (dominant part)
-        n_cases = R.pick(300, 5000)
+        n_cases = R.pick(220, 5000)
         t_budget = R.pick(25, 360)
         t0 = time.time()
         done = 0
@@ -689,9 +760,9 @@ def run(R: Run):
                                         nlayers=1 + n % 3, overwrite_new=bool(n % 2), blocksize=[16, 32, 48, None, 20][n % 5],
                                         windowed=windowed, icomp=[False, True, "zstd", {"compress": "lzw"}][(n // 2) % 4],
                                         resampling=[None, "nearest", "average"][n % 3], content=CONTENTS[n % len(CONTENTS)],
-                                        env=env, seed=1000 + n))
+                                        env=env, seed=1000 + n, container=CONTAINERS[n % len(CONTAINERS)]))
         R.extra["cross_product_size"] = len(matrix)
-        pick = matrix if not R.quick else rng.sample(matrix, 330)
+        pick = matrix if not R.quick else rng.sample(matrix, 260)
         t1 = time.time()
         for i, cfg in enumerate(pick):
             if time.time() - t1 > R.pick(25, 300):
